@@ -556,6 +556,497 @@ const syncImports = "From Coq Require Import ZArith List String.\nFrom GCA Requi
 const modelVersion = "v_fixed"
 const modelMinLen = "712"
 
+// ---------------------------------------------------------------- the syncwire suite (C10)
+
+type swDevice struct {
+	key  keyPair
+	id   uint32
+	sent map[uint32]bool // slots for which the server accepted at least one report
+	mig  *server.EquipmentMigration
+}
+
+func (rs *realServer) authorize(d *swDevice) error {
+	ea := glow.EquipmentAuthorization{ShortID: d.id, PublicKey: d.key.pub, Latitude: 38, Longitude: -100, Capacity: 1 << 40, Debt: 1, Expiration: 100e6}
+	return rs.s.AuthorizeEquipment(ea, rs.gca.priv)
+}
+
+// sendReport sends one signed report over UDP and waits until the server's
+// window shows a record in that slot (or gives up: the report was refused).
+func (rs *realServer) sendReport(d *swDevice, slot uint32, power uint64) error {
+	r := glow.EquipmentReport{ShortID: d.id, Timeslot: slot, PowerOutput: power}
+	r.Signature = glow.Sign(r.SigningBytes(), d.key.priv)
+	return glow.SendUDPReport(r.Serialize(), fmt.Sprintf("127.0.0.1:%d", rs.udp))
+}
+
+func bitSet(bf []byte, i int) bool { return bf[i/8]&(1<<(uint(i)%8)) != 0 }
+
 func syncwireSuite(seed uint64, tier, outDir string) (*core.Result, error) {
-	return nil, fmt.Errorf("not written yet")
+	res := core.NewResult("syncwire", seed, tier)
+	rng := core.NewRNG(seed)
+	thorough := tier == "thorough"
+	rs, err := startRealServer("verif-syncwire")
+	if err != nil {
+		return nil, err
+	}
+	defer os.RemoveAll(rs.dir)
+	defer rs.s.Close()
+	defer glow.SetCurrentTimeslot(0)
+	peer, err := newScriptPeer(nil)
+	if err != nil {
+		return nil, err
+	}
+	defer peer.close()
+	tab := &sigTab{} // inner (GCA) signatures created by the harness
+
+	// ---- devices: one that follows the server list, five with a migration order of 0..4 new servers
+	main := &swDevice{key: newKey(), id: uint32(rng.Range(1, 1000)), sent: map[uint32]bool{}}
+	other := &swDevice{key: newKey(), id: main.id + 1000, sent: map[uint32]bool{}}
+	devs := []*swDevice{main, other}
+	var migDevs []*swDevice
+	for k := 0; k <= 4; k++ {
+		d := &swDevice{key: newKey(), id: main.id + 2000 + uint32(k), sent: map[uint32]bool{}}
+		migDevs = append(migDevs, d)
+		devs = append(devs, d)
+	}
+	for _, d := range devs {
+		if err := rs.authorize(d); err != nil {
+			return nil, fmt.Errorf("authorize: %v", err)
+		}
+	}
+	unknownID := main.id + 5000
+
+	var vcases []string
+	nSample := 200
+	if thorough {
+		nSample = 4000
+	}
+	stateNo := 0
+
+	// waitWindow polls the public window until it shows the expected number of records
+	waitRecords := func(d *swDevice, want func(p []uint64) bool) []uint64 {
+		var p []uint64
+		for i := 0; i < 100; i++ {
+			p, _ = rs.recentPowers(d.key.pub)
+			if p != nil && want(p) {
+				return p
+			}
+			time.Sleep(10 * time.Millisecond)
+		}
+		return p
+	}
+	report := func(d *swDevice, slot uint32, power uint64, now uint32) {
+		rs.sendReport(d, slot, power)
+		if power >= 2 && int64(slot) >= int64(now)-432 && int64(slot) <= int64(now)+432 {
+			d.sent[slot] = true
+		}
+	}
+
+	// snapshot: fetch the genuine reply for a device, check it against the public data, mutate it
+	snapshot := func(d *swDevice, label string) error {
+		var wire []byte
+		var powers []uint64
+		var t0, t1 int64
+		for try := 0; ; try++ {
+			t0 = time.Now().Unix()
+			w, err := fetchSync(rs.tcp, d.id)
+			t1 = time.Now().Unix()
+			if err != nil {
+				return fmt.Errorf("fetch sync: %v", err)
+			}
+			powers, err = rs.recentPowers(d.key.pub)
+			if err != nil {
+				return err
+			}
+			w2, err := fetchSync(rs.tcp, d.id)
+			if err != nil {
+				return err
+			}
+			// the window must not have moved or changed between the three requests
+			if len(w) == len(w2) && len(w) >= 542 && bytes.Equal(w[2:542], w2[2:542]) {
+				wire = w
+				break
+			}
+			res.Discarded++
+			if try > 20 {
+				return fmt.Errorf("server window keeps changing")
+			}
+			time.Sleep(30 * time.Millisecond)
+		}
+		servers, err := rs.getServers()
+		if err != nil {
+			return err
+		}
+		res.Count("state." + label)
+		stateNo++
+		c := client.VerifSyncIdentityClient(d.key.pub, d.id)
+		obs0 := parseVia(res, peer, c, wire, rs.keys.pub, rs.gca.pub)
+		desc := map[string]interface{}{"kind": "genuine", "state": label, "reply_bytes": len(wire), "servers": len(servers), "migration": d.mig != nil, "outcome": obs0.errClass}
+		replay := map[string]interface{}{"state": label, "wire": hex.EncodeToString(wire)}
+		n := len(wire) - 2
+		if n < 712 || int(binary.LittleEndian.Uint16(wire)) != n {
+			res.Fail("genuine reply is not framed as length prefix ++ body", "genuine-frame", replay)
+			return nil
+		}
+		// ---- property oracle on the genuine reply
+		if !obs0.ok {
+			res.Fail("the client rejects the genuine reply of the server: "+obs0.errText+obs0.panicked, "genuine-rejected", replay)
+		} else {
+			records := 0
+			for i := 0; i < 4032; i++ {
+				has := powers[i] != 0
+				if has {
+					records++
+				}
+				if bitSet(obs0.bitfield[:], i) != has {
+					res.Fail(fmt.Sprintf("bit %d of the bitfield is %v but the server's window holds PowerOutput=%d in that slot", i, bitSet(obs0.bitfield[:], i), powers[i]), "bitfield-mismatch", replay)
+					break
+				}
+			}
+			inWin := 0
+			for s := range d.sent {
+				if s >= obs0.offset && s < obs0.offset+4032 {
+					inWin++
+					if !bitSet(obs0.bitfield[:], int(s-obs0.offset)) {
+						res.Fail(fmt.Sprintf("report for slot %d was accepted but bit %d (offset %d) is clear", s, s-obs0.offset, obs0.offset), "offset-mismatch", replay)
+						break
+					}
+				}
+			}
+			if inWin != records {
+				res.Fail(fmt.Sprintf("the window holds %d records, %d accepted reports fall into [offset, offset+4032)", records, inWin), "offset-mismatch", replay)
+			}
+			tm := int64(binary.LittleEndian.Uint64(wire[2+n-72:]))
+			if tm < t0 || tm > t1 {
+				res.Fail("signing time is not the server's clock", "time-mismatch", replay)
+			}
+			if d.mig == nil {
+				var blank glow.PublicKey
+				if obs0.newGCA != blank || obs0.newID != 0 || asCanon(obs0.servers) != asCanon(servers) {
+					res.Fail("parsed server list differs from GET /authorized-servers", "list-mismatch", replay)
+				}
+			} else if obs0.newGCA != d.mig.NewGCA || obs0.newID != d.mig.NewShortID || asCanon(obs0.servers) != asCanon(d.mig.NewServers) {
+				res.Fail("parsed migration order differs from the order the GCA posted", "migration-mismatch", replay)
+			}
+		}
+		res.Case(desc, label+obs0.canon(), obs0.ok)
+
+		// ---- model: the reply rebuilt from the public data must be the bytes on the wire
+		var rle []string
+		for i := 0; i < 4032; {
+			j := i
+			for j < 4032 && powers[j] == powers[i] {
+				j++
+			}
+			rle = append(rle, core.Pair(core.Nat(j-i), core.ZU(powers[i])))
+			i = j
+		}
+		mg := "None"
+		if d.mig != nil {
+			mg = "(Some " + migG(*d.mig) + ")"
+		}
+		off := binary.LittleEndian.Uint32(wire[34:38])
+		vcases = append(vcases, core.Tuple(core.Hex(d.key.pub[:]), core.ZU(uint64(off)), "(rle "+core.List(rle)+")", mg, asListG(servers),
+			core.ZU(binary.LittleEndian.Uint64(wire[2+n-72:])), core.Hex(wire[2+n-64:]), core.Hex(wire)))
+
+		// ---- mutations
+		t := tab.clone()
+		var sig glow.Signature
+		copy(sig[:], wire[2+n-64:])
+		t.add(rs.keys.pub, wire[2:2+n-64], sig)
+		base := core.Tuple(core.Hex(d.key.pub[:]), core.Hex(rs.keys.pub[:]), core.Hex(rs.gca.pub[:]), core.Hex(wire), t.gallina())
+		var pcs []string
+		pcs = append(pcs, core.Tuple(core.Nat(0), "MNone", core.Z(obs0.now), obs0.gallina()))
+		mustReject := func(o parseObs, what string, mdesc map[string]interface{}) {
+			res.Count("mut." + what)
+			mdesc["state"], mdesc["outcome"] = label, o.errClass
+			res.Case(mdesc, fmt.Sprint(label, what, mdesc["pos"], mdesc["bit"], mdesc["n"], mdesc["delta"]), true)
+			if o.ok || o.panicked != "" {
+				mdesc["wire"] = hex.EncodeToString(wire)
+				res.Fail("client accepts (or panics on) an altered reply: "+what, "altered-accepted:"+what, mdesc)
+			}
+		}
+		content := append([]byte{}, wire[2:2+n-64]...)
+		resign := func(cnt []byte, k keyPair) []byte { // not recorded in the table: the case carries the signer
+			sg := glow.Sign(cnt, k.priv)
+			return frame(append(append([]byte{}, cnt...), sg[:]...))
+		}
+		// single-bit mutations
+		nbits := len(wire) * 8
+		doFlip := func(pos, bit int) {
+			m := append([]byte{}, wire...)
+			m[pos] ^= 1 << uint(bit)
+			o := parseVia(res, peer, c, m, rs.keys.pub, rs.gca.pub)
+			pcs = append(pcs, core.Tuple(core.Nat(0), fmt.Sprintf("(MFlip %d %d)", pos, bit), core.Z(o.now), o.gallina()))
+			mustReject(o, "bitflip", map[string]interface{}{"kind": "bitflip", "pos": pos, "bit": bit})
+		}
+		if thorough && nbits <= 9000 {
+			for b := 0; b < nbits; b++ {
+				doFlip(b/8, b%8)
+			}
+		} else {
+			// every field at least once, then random
+			for _, pos := range []int{0, 1, 2, 33, 34, 37, 38, 541, 542, 573, 574, 577, 578, len(wire) - 137, len(wire) - 136, len(wire) - 73, len(wire) - 72, len(wire) - 65, len(wire) - 64, len(wire) - 1} {
+				doFlip(pos, rng.Intn(8))
+			}
+			for i := 0; i < nSample-20; i++ {
+				b := rng.Intn(nbits)
+				doFlip(b/8, b%8)
+			}
+		}
+		// truncations
+		for _, cut := range []int{0, 1, 2, 3, 73, 74, 578, 714, len(wire) - 65, len(wire) - 64, len(wire) - 1, rng.Intn(len(wire)), rng.Intn(len(wire))} {
+			if cut < 0 || cut >= len(wire) {
+				continue
+			}
+			o := parseVia(res, peer, c, wire[:cut], rs.keys.pub, rs.gca.pub)
+			pcs = append(pcs, core.Tuple(core.Nat(0), fmt.Sprintf("(MTrunc %d)", cut), core.Z(o.now), o.gallina()))
+			mustReject(o, "truncation", map[string]interface{}{"kind": "truncation", "n": cut})
+		}
+		// extensions: bytes after the announced length are never read -- the result is the genuine one;
+		// extensions covered by the length prefix break the signature
+		for _, extra := range [][]byte{{0}, rng.Bytes(1), rng.Bytes(64), rng.Bytes(300)} {
+			o := parseVia(res, peer, c, append(append([]byte{}, wire...), extra...), rs.keys.pub, rs.gca.pub)
+			pcs = append(pcs, core.Tuple(core.Nat(0), "(MExtend "+core.Hex(extra)+")", core.Z(o.now), o.gallina()))
+			res.Count("mut.extension-unread")
+			res.Case(map[string]interface{}{"kind": "extension-unread", "state": label, "n": len(extra)}, fmt.Sprint(label, "extu", len(extra)), true)
+			if !o.same(obs0) {
+				res.Fail("bytes after the announced length change the result", "extension-changes-result", map[string]interface{}{"state": label, "extra": len(extra)})
+			}
+			ext := frame(append(append([]byte{}, wire[2:]...), extra...))
+			o2 := parseVia(res, peer, c, ext, rs.keys.pub, rs.gca.pub)
+			pcs = append(pcs, core.Tuple(core.Nat(0), "(MReplace "+core.Hex(ext)+" None)", core.Z(o2.now), o2.gallina()))
+			mustReject(o2, "extension", map[string]interface{}{"kind": "extension", "n": len(extra)})
+		}
+		// re-signing under other keys
+		for name, k := range map[string]keyPair{"random": newKey(), "gca": rs.gca, "device": d.key} {
+			m := resign(content, k)
+			o := parseVia(res, peer, c, m, rs.keys.pub, rs.gca.pub)
+			pcs = append(pcs, core.Tuple(core.Nat(0), "(MReplace "+core.Hex(m)+" (Some "+core.Hex(k.pub[:])+"))", core.Z(o.now), o.gallina()))
+			mustReject(o, "resigned-"+name, map[string]interface{}{"kind": "resigned", "signer": name})
+		}
+		// the genuine bytes, but the client contacted another server / is another device / trusts another GCA
+		{
+			k := newKey()
+			o := parseVia(res, peer, c, wire, k.pub, rs.gca.pub)
+			pcs = append(pcs, core.Tuple(core.Nat(0), fmt.Sprintf("(MKeys %s %s %s)", core.Hex(d.key.pub[:]), core.Hex(k.pub[:]), core.Hex(rs.gca.pub[:])), core.Z(o.now), o.gallina()))
+			mustReject(o, "other-server-key", map[string]interface{}{"kind": "other-server-key"})
+			od := newKey()
+			c2 := client.VerifSyncIdentityClient(od.pub, d.id)
+			o = parseVia(res, peer, c2, wire, rs.keys.pub, rs.gca.pub)
+			pcs = append(pcs, core.Tuple(core.Nat(0), fmt.Sprintf("(MKeys %s %s %s)", core.Hex(od.pub[:]), core.Hex(rs.keys.pub[:]), core.Hex(rs.gca.pub[:])), core.Z(o.now), o.gallina()))
+			mustReject(o, "other-device", map[string]interface{}{"kind": "other-device"})
+			og := newKey()
+			o = parseVia(res, peer, c, wire, rs.keys.pub, og.pub)
+			pcs = append(pcs, core.Tuple(core.Nat(0), fmt.Sprintf("(MKeys %s %s %s)", core.Hex(d.key.pub[:]), core.Hex(rs.keys.pub[:]), core.Hex(og.pub[:])), core.Z(o.now), o.gallina()))
+			if d.mig != nil || len(servers) > 0 {
+				mustReject(o, "other-gca", map[string]interface{}{"kind": "other-gca"})
+			} else {
+				res.Count("mut.other-gca-nothing-signed")
+			}
+		}
+		// timestamp shifts, re-signed with the contacted server's real key
+		for _, delta := range []int64{-86401, -86400, -86399, 86399, 86400, 86401, -200000, 200000, 0} {
+			for try := 0; try < 6; try++ {
+				base := time.Now().Unix()
+				cnt := append([]byte{}, content...)
+				binary.LittleEndian.PutUint64(cnt[len(cnt)-8:], uint64(base+delta))
+				m := resign(cnt, rs.keys)
+				o := parseVia(res, peer, c, m, rs.keys.pub, rs.gca.pub)
+				if o.now != base {
+					res.Discarded++
+					continue
+				}
+				pcs = append(pcs, core.Tuple(core.Nat(0), "(MReplace "+core.Hex(m)+" (Some "+core.Hex(rs.keys.pub[:])+"))", core.Z(o.now), o.gallina()))
+				within := delta >= -86400 && delta <= 86400
+				res.Count(fmt.Sprintf("mut.timeshift%+d", delta))
+				res.Case(map[string]interface{}{"kind": "timeshift", "state": label, "delta": delta, "outcome": o.errClass}, fmt.Sprint(label, "ts", delta), true)
+				if o.ok != within || (o.ok && !o.same(obs0)) {
+					res.Fail(fmt.Sprintf("reply signed %+d s from the client's clock: accepted=%v", delta, o.ok), fmt.Sprintf("freshness:%+d", delta), map[string]interface{}{"state": label, "delta": delta})
+				}
+				break
+			}
+		}
+		// inner signatures: entry / order tampered, outer signature re-made with the real server key
+		if len(content) > 712-64 {
+			region := len(content) - 72 - 64 - 576 // bytes of the list
+			var spots []int
+			if region > 0 {
+				spots = append(spots, 576+32, 576+34+rng.Intn(region-34), len(content)-72-64-1) // ban flag, somewhere, last byte of the last entry signature
+			}
+			if d.mig != nil {
+				spots = append(spots, 540, 572, len(content)-72-1, len(content)-72-64) // new GCA, new id, order signature
+			}
+			for _, p := range spots {
+				cnt := append([]byte{}, content...)
+				cnt[p] ^= 1 << uint(rng.Intn(8))
+				m := resign(cnt, rs.keys)
+				o := parseVia(res, peer, c, m, rs.keys.pub, rs.gca.pub)
+				pcs = append(pcs, core.Tuple(core.Nat(0), "(MReplace "+core.Hex(m)+" (Some "+core.Hex(rs.keys.pub[:])+"))", core.Z(o.now), o.gallina()))
+				mustReject(o, "inner-tamper", map[string]interface{}{"kind": "inner-tamper", "pos": p})
+			}
+		}
+		for off := 0; off < len(pcs); off += 2500 {
+			end := off + 2500
+			if end > len(pcs) {
+				end = len(pcs)
+			}
+			if err := res.CasesFile(outDir, fmt.Sprintf("cases_syncwire_%02d_%d", stateNo, off/2500), syncImports, "pcase", pcs[off:end], "pc_mismatches "+modelMinLen+" ["+base+"]"); err != nil {
+				return err
+			}
+		}
+		return nil
+	}
+
+	// ---- unknown short id: refusal
+	{
+		w, err := fetchSync(rs.tcp, unknownID)
+		if err != nil {
+			return nil, err
+		}
+		c := client.VerifSyncIdentityClient(main.key.pub, unknownID)
+		o := parseVia(res, peer, c, w, rs.keys.pub, rs.gca.pub)
+		res.Count("refusal")
+		res.Case(map[string]interface{}{"kind": "refusal", "bytes": hex.EncodeToString(w), "outcome": o.errClass}, "refusal", true)
+		if !bytes.Equal(w, []byte{0}) || o.ok || o.panicked != "" {
+			res.Fail("unknown short id is not refused with a single zero byte / the client does not reject it", "refusal", map[string]interface{}{"bytes": hex.EncodeToString(w)})
+		}
+		if err := res.CasesFile(outDir, "cases_syncwire_refusal", syncImports, "pcase",
+			[]string{core.Tuple(core.Nat(0), "MNone", core.Z(o.now), o.gallina())},
+			"pc_mismatches "+modelMinLen+" ["+core.Tuple(core.Hex(main.key.pub[:]), core.Hex(rs.keys.pub[:]), core.Hex(rs.gca.pub[:]), core.Hex(w), "[]")+"]"); err != nil {
+			return nil, err
+		}
+	}
+
+	// ---- state 0: empty window, empty list
+	glow.SetCurrentTimeslot(0)
+	if err := snapshot(main, "empty"); err != nil {
+		return nil, err
+	}
+
+	// ---- authorized servers: location lengths 0, 1, 254, 255 (+ random), ban flags
+	locs := []string{"", "!", strings.Repeat("a", 254), strings.Repeat("b", 255), "127.0.0.1", "host-" + fmt.Sprint(rng.Intn(1000)), strings.Repeat("c", rng.Range(2, 253)), "127.0.0.1"}
+	nServers := rng.Range(5, 8)
+	var posted []keyPair
+	postServer := func(i int, banned bool, key glow.PublicKey) {
+		as := mkAS(tab, rs.gca, key, banned, locs[i%len(locs)], 9, 9, uint16(rng.Range(1, 65535)))
+		rs.postJSON("authorized-servers", as)
+	}
+	// ---- state 1: reports at the lower window edge, byte boundaries, a banned slot; two servers
+	for _, s := range []uint32{0, 1, 7, 8, 9, 15, 16, uint32(rng.Range(17, 400)), 431, 432} {
+		report(main, s, uint64(rng.Range(2, 1<<30)), 0)
+	}
+	report(main, 5, 777, 0)
+	report(main, 5, 778, 0) // second, different report: the slot is banned (PowerOutput 1) and still counts as a record
+	report(main, 433, 5, 0) // too far in the future: refused
+	report(main, 3, 1, 0)   // sentinel values are refused
+	report(main, 4, 0, 0)
+	report(other, 2, 99, 0)
+	for i := 0; i < 2; i++ {
+		k := newKey()
+		posted = append(posted, k)
+		postServer(i, false, k.pub)
+	}
+	waitRecords(main, func(p []uint64) bool { return p[432] != 0 && p[5] == 1 })
+	if err := snapshot(main, "lower-edge"); err != nil {
+		return nil, err
+	}
+	res.Count("window.bit0")
+	res.Count("window.banned-slot")
+
+	// ---- state 2: now = 432 .. more reports, more servers, one becomes banned
+	glow.SetCurrentTimeslot(432)
+	for i := 0; i < 12; i++ {
+		report(main, uint32(rng.Range(433, 864)), uint64(rng.Range(2, 1<<40)), 432)
+	}
+	report(main, 864, 2, 432) // the smallest accepted power
+	for i := 2; i < nServers; i++ {
+		k := newKey()
+		posted = append(posted, k)
+		postServer(i, i == 3, k.pub)
+	}
+	postServer(1, true, posted[1].pub) // ban an existing one
+	waitRecords(main, func(p []uint64) bool { return p[864] != 0 })
+	if err := snapshot(main, "servers-0-1-254-255"); err != nil {
+		return nil, err
+	}
+	res.Count("servers.loc0")
+	res.Count("servers.loc1")
+	res.Count("servers.loc254")
+	res.Count("servers.loc255")
+	res.Count("servers.banned")
+
+	// ---- state 3: now = 3200 (the last moment before rotation is due): high indices
+	glow.SetCurrentTimeslot(3200)
+	for _, s := range []uint32{2768, 2769, 3199, 3200, 3201, 3631, 3632, uint32(rng.Range(2770, 3630))} {
+		report(main, s, uint64(rng.Range(2, 1<<30)), 3200)
+	}
+	waitRecords(main, func(p []uint64) bool { return p[3632] != 0 })
+	if err := snapshot(main, "upper-indices"); err != nil {
+		return nil, err
+	}
+	res.Count("window.index3632")
+
+	// ---- migrations with 0..4 new servers
+	for k, d := range migDevs {
+		ng := newKey()
+		var ns []server.AuthorizedServer
+		for j := 0; j < k; j++ {
+			ns = append(ns, mkAS(tab, ng, newKey().pub, j == 2, locs[(j+k)%4], uint16(rng.U64()), uint16(rng.U64()), uint16(rng.U64())))
+		}
+		m := mkMig(tab, rs.gca, d.key.pub, ng.pub, uint32(rng.Range(1, 1<<30)), ns)
+		code, err := rs.postJSON("equipment-migrate", m)
+		if err != nil || code != 200 {
+			return nil, fmt.Errorf("migration post failed: %v %d", err, code)
+		}
+		d.mig = &m
+		if k%2 == 0 {
+			report(d, uint32(3000+k), 4242, 3200)
+			waitRecords(d, func(p []uint64) bool { return p[3000+k] != 0 })
+		}
+		if err := snapshot(d, fmt.Sprintf("migration-%d-servers", k)); err != nil {
+			return nil, err
+		}
+	}
+
+	// ---- state: rotation (offset becomes 2016)
+	glow.SetCurrentTimeslot(3300)
+	rotated := false
+	for i := 0; i < 300; i++ {
+		w, err := fetchSync(rs.tcp, main.id)
+		if err == nil && len(w) > 38 && binary.LittleEndian.Uint32(w[34:38]) == 2016 {
+			rotated = true
+			break
+		}
+		time.Sleep(10 * time.Millisecond)
+	}
+	if !rotated {
+		return nil, fmt.Errorf("server did not rotate its window")
+	}
+	report(main, 3400, 12345, 3300)
+	report(main, 2016, 3, 3300) // outside now-432: refused
+	waitRecords(main, func(p []uint64) bool { return p[3400-2016] != 0 })
+	if err := snapshot(main, "rotated-offset-2016"); err != nil {
+		return nil, err
+	}
+	res.Count("window.offset-nonzero")
+	if err := snapshot(other, "other-device"); err != nil {
+		return nil, err
+	}
+
+	for off := 0; off < len(vcases); off += 6 {
+		end := off + 6
+		if end > len(vcases) {
+			end = len(vcases)
+		}
+		if err := res.CasesFile(outDir, fmt.Sprintf("cases_syncview_%d", off/6), syncImports, "vcase", vcases[off:end], "v_mismatches"); err != nil {
+			return nil, err
+		}
+	}
+	res.Required = append(res.Required, "refusal", "state.empty", "state.lower-edge", "state.servers-0-1-254-255", "state.upper-indices",
+		"state.migration-0-servers", "state.migration-4-servers", "state.rotated-offset-2016", "window.bit0", "window.banned-slot",
+		"window.index3632", "window.offset-nonzero", "servers.loc0", "servers.loc255", "mut.bitflip", "mut.truncation", "mut.extension",
+		"mut.extension-unread", "mut.resigned-random", "mut.other-server-key", "mut.other-device", "mut.other-gca", "mut.inner-tamper",
+		"mut.timeshift-86401", "mut.timeshift-86400", "mut.timeshift-86399", "mut.timeshift+86399", "mut.timeshift+86400", "mut.timeshift+86401")
+	res.Rule = "server states built through UDP reports (window edges 0/7/8/431/432/864/3199..3632, banned slot, power 2, refused reports), HTTP posts (0..8 servers, locations of 0/1/254/255 bytes, bans), migration orders with 0..4 new servers, rotation to offset 2016; per state: genuine reply vs public data, sampled (quick) or all (thorough, small replies) single-bit flips, truncations, extensions, re-signings, key swaps, timestamp shifts +-86399/86400/86401 re-signed with the server key, inner-signature tampering; distinct by (state, mutation)"
+	return res, nil
 }
